@@ -37,7 +37,7 @@ KINDS = ["cuboid_parts", "cuboid_mesh", "cuboid_tetra", "cuboid_triangles", "tet
 
 
 def budget(tier):
-    return {"examples": 1200 if tier == "quick" else 60000}
+    return {"examples": 5000 if tier == "quick" else 100000}
 
 
 @st.composite
@@ -265,6 +265,9 @@ def run_case(case, ctx):
         obj = build.build_source(p) if isinstance(p, dict) else p
         rp = build.call(fn, obj, G, squeeze=False)
         if not rp.ok:
+            if exc_sig(rp.exc)["frame"] in ("special_cel.py:cel0", "special_el3.py:el30"):
+                ctx.label("part_raised_internal_error_skipped")  # finiteness / exceptions near special sets: C15 (KF-C15-2)
+                return out
             return [Violation({"sub": "call_raised", "kind": kind, "side": "part", **exc_sig(rp.exc)}, repr(rp.exc)[:200])]
         Fp = np.asarray(rp.value).reshape(-1, len(G), 3)
         if Fp.shape[0] == 1 and M > 1:
@@ -278,7 +281,16 @@ def run_case(case, ctx):
                     tp, npn = geom.special_dist(pb, lp[None], with_name=True)
                     allow[m, k] += c01.tolerance(p["cls"], float(tp[0]) / pb.L, float(pb.dist(lp[None])[0]) / pb.L, npn[0]) * float(np.linalg.norm(Fp[m, k]))
         else:
-            allow += 1e-5 * np.linalg.norm(Fp, axis=-1)
+            # an object built from the same geometry (mesh / triangle collection): envelope of its class at the
+            # observer, measured on the body of the whole (identical shape and pose)
+            pcls = "TriangularMesh" if type(p).__name__ == "TriangularMesh" else "Triangle"
+            pbody = body if isinstance(body, geom.Polyhedron) else geom.body_from_spec(whole)
+            for m in range(M):
+                for k, (_, pl, g) in enumerate(keep):
+                    lw = build.to_local(whole, g, m)
+                    tp, npn = geom.special_dist(pbody, lw[None], with_name=True)
+                    allow[m, k] += c01.tolerance(pcls, float(tp[0]) / pbody.L, float(pbody.dist(lw[None])[0]) / pbody.L,
+                                                 npn[0] if npn[0] in ("edge_line", "surface") else "surface") * float(np.linalg.norm(Fp[m, k]))
     if kind == "sphere_dipole":
         pass
     diff = np.linalg.norm(tot - Fw, axis=-1)
@@ -293,9 +305,11 @@ def run_case(case, ctx):
         o, pl, g = keep[k]
         ins = bool(body.inside(pl[None])[0]) if body.kind == "magnet" else False
         rel = float(diff[m, k] / max(mags_w[m, k], 1e-300))
+        from vf.props.c02 import _coplanar  # pylint: disable=import-outside-toplevel
+
         out.append(Violation({"sub": "representations_differ", "kind": kind, "field": field, "inside": ins,
                               "magnitude": "O(1)" if rel > 1e-2 else ("1e-5..1e-2" if rel > 1e-5 else "small"),
-                              "ctor": case.get("ctor", "")},
+                              "ctor": case.get("ctor", ""), "coplanar_face_planes": _coplanar(body, pl)},
                              f"{kind}: {field} of the whole ({whole['cls']}) and of its {len(parts)} part(s)/other representation differ by {rel:.3g} "
                              f"(relative) at local {pl.tolist()} (region {o['region']}, inside={ins}); whole {Fw[m, k].tolist()} other {tot[m, k].tolist()}"))
     if nt:
@@ -331,7 +345,8 @@ def _run_ngon(case, ctx):
         K = 40.0 * max(1.0, 1.0 / d**2)
         if e1[k] / sc[k] > K / n**2 + 1e-9:
             out.append(Violation({"sub": "ngon_not_converging", "n": n}, f"n={n}: rel. error {e1[k] / sc[k]:.3g} > {K / n**2:.3g} at d/L={d:.3g}"))
-        elif e1[k] / sc[k] > 1e-7 and not 2.5 <= e1[k] / max(e2[k], 1e-300) <= 6.0:
+        elif e1[k] / sc[k] > 1e-7 and (np.pi * dia / n) < 0.3 * d * body.L and not 2.5 <= e1[k] / max(e2[k], 1e-300) <= 6.0:
+            # (the 1/n^2 regime needs polygon sides much shorter than the distance to the wire)
             out.append(Violation({"sub": "ngon_convergence_order", "n": n},
                                  f"error ratio between n={n} and 2n is {e1[k] / max(e2[k], 1e-300):.3g}, expected ~4 (errors {e1[k] / sc[k]:.3g}, {e2[k] / sc[k]:.3g})"))
     ctx.mark_nontrivial(case)
